@@ -43,11 +43,12 @@ const (
 	mInts  = "ints"
 	mNInts = "nints" // a []int variable that is compared with nil: option (list Z)
 	mOMap  = "omap"  // *orderedmap.OrderedMap[int, uint]
+	mIMap  = "imap"  // map[int]int (matchmap.go)
 	mNil   = "nil"
 )
 
 var mgCoq = map[string]string{mInt: "Z", mUint: "Z", mBool: "bool", mPt: "pt", mPts: "(list pt)", mRings: "(list (list pt))",
-	mPolys: "(list (list (list pt)))", mInts: "(list Z)", mNInts: "(option (list Z))", mOMap: "omap"}
+	mPolys: "(list (list (list pt)))", mInts: "(list Z)", mNInts: "(option (list Z))", mOMap: "omap", mIMap: "imap"}
 
 func mgElem(ty string) (string, bool) {
 	switch ty {
@@ -88,6 +89,9 @@ var mgExternals = map[string]mgExternal{
 	"sortPolyIdxsByOuterAreaDesc": {local: true, wantType: "func(polygons [][][][2]float64) []int",
 		params: []string{mPolys}, results: []mgResult{{mInts, "%s"}}, coq: "sortPolyIdxsByOuterAreaDesc", nilIfEmpty: true,
 		doc: "sortPolyIdxsByOuterAreaDesc(polygons) (snap.go; go-sortedmap + float Shoelace)  ->  Snap.Model.sortPolyIdxsByOuterAreaDesc; assigned to a nil-checked variable through nilable_of_keys (Keys() of an empty sorted map is nil)"},
+	"ringsAreEqual": {local: true, wantType: "func(ringI, ringJ [][2]float64, iIsOuter, jIsOuter bool) bool",
+		params: []string{mPts, mPts, mBool, mBool}, results: []mgResult{{mBool, "%s"}}, coq: "ringsAreEqual", monadic: true,
+		doc: "ringsAreEqual(ringI, ringJ, iIsOuter, jIsOuter) (snap.go)  ->  Snap.Model.ringsAreEqual : res bool (Err where ringI[0] panics); tied to the source on its own by gen/RingHelpersGen.v + Snap/ProofsGenRingHelpers.v"},
 	"mapslicehelp.FindLastKeyWithMaxValue": {wantTParam: "K comparable;V constraints.Ordered;", wantType: "func(m *orderedmap.OrderedMap[K, V]) (maxK K, maxV V, numWinners uint)",
 		params: []string{mOMap}, results: []mgResult{{mInt, "(fst %s)"}, {"", ""}, {mUint, "(snd %s)"}}, coq: "maxWinners",
 		doc: "mapslicehelp.FindLastKeyWithMaxValue(m)  ->  Snap.Model.maxWinners m = (maxK, numWinners); maxV is not modelled and must be discarded (_)"},
@@ -146,6 +150,7 @@ type mg struct {
 	helperPkgs map[string]string        // imports of mapslicehelp.go
 	nilChecked map[string]bool          // variables compared with nil
 	used       map[string]bool          // modelled mappings that were used (for the header)
+	lenVars    map[string]bool          // variables defined once as len(..) (matchmap.go)
 	retTy      string
 	n          int
 }
@@ -457,6 +462,10 @@ func (m *mg) call(env *mgEnv, x *ast.CallExpr, binds *[]string) ([]mgVal, error)
 			return nil, fmt.Errorf("len of %s", a.ty)
 		}
 		return []mgVal{{code: "(zlen " + a.code + ")", ty: mInt}}, nil
+	}
+	// make(map[int]int, n): an empty map (matchmap.go)
+	if id, ok := x.Fun.(*ast.Ident); ok && id.Name == "make" && !m.shadowed(env, "make") {
+		return m.makeIntMap(env, x, binds)
 	}
 	// orderedmap.New[int, uint](orderedmap.WithCapacity[int, uint](n)): an empty map; the capacity is only a hint
 	if fun == "orderedmap.New[int, uint]" {
@@ -823,10 +832,16 @@ func (m *mg) block(env *mgEnv, list []ast.Stmt, ctx *mgCtx, tail mgTail) (string
 }
 
 func (m *mg) ifStmt(env *mgEnv, s *ast.IfStmt, rest []ast.Stmt, ctx *mgCtx, next mgTail) (string, error) {
-	if s.Init != nil {
-		return "", fmt.Errorf("unsupported if with init")
-	}
 	var binds []string
+	outer := env
+	if s.Init != nil {
+		// if v, ok := m[k]; cond { .. }: v and ok live in the condition and the branches only (matchmap.go)
+		envI, lines, err := m.intMapLookupInit(env, s.Init)
+		if err != nil {
+			return "", err
+		}
+		env, binds = envI, lines
+	}
 	c, err := m.expr(env, s.Cond, &binds)
 	if err != nil {
 		return "", err
@@ -836,7 +851,7 @@ func (m *mg) ifStmt(env *mgEnv, s *ast.IfStmt, rest []ast.Stmt, ctx *mgCtx, next
 	}
 	thenL, elseL := s.Body.List, mgElse(s)
 	thenT, elseT := mgTerminates(thenL), mgTerminates(elseL)
-	after := func(*mgEnv) (string, error) { return next(env) } // what a block declares is not visible after it
+	after := func(*mgEnv) (string, error) { return next(outer) } // what a block (or the init) declares is not visible after it
 	var a, b string
 	switch {
 	case thenT && elseT:
@@ -874,7 +889,14 @@ func (m *mg) ifStmt(env *mgEnv, s *ast.IfStmt, rest []ast.Stmt, ctx *mgCtx, next
 		if asg["?"] {
 			return "", fmt.Errorf("unsupported assignment target inside a branch")
 		}
-		_, tuple, pattern, _ := m.state(env, asg)
+		if s.Init != nil {
+			for n := range asg {
+				if _, known := outer.vars[n]; !known {
+					return "", fmt.Errorf("a branch assigns %s, which the if statement declares", n)
+				}
+			}
+		}
+		_, tuple, pattern, _ := m.state(outer, asg)
 		join := func(*mgEnv) (string, error) { return "Ok " + tuple, nil }
 		if a, err = m.block(env.clone(), thenL, ctx, join); err != nil {
 			return "", err
@@ -882,7 +904,7 @@ func (m *mg) ifStmt(env *mgEnv, s *ast.IfStmt, rest []ast.Stmt, ctx *mgCtx, next
 		if b, err = m.block(env.clone(), elseL, ctx, join); err != nil {
 			return "", err
 		}
-		body, err := next(env)
+		body, err := next(outer)
 		if err != nil {
 			return "", err
 		}
@@ -1018,6 +1040,13 @@ func (m *mg) assign(env *mgEnv, s *ast.AssignStmt) ([]string, *mgEnv, error) {
 			return nil, nil, fmt.Errorf("append is only supported as v = append(v, x) or a[k] = append(a[k], x)")
 		}
 	}
+	// m[k] = v on a map[int]int (matchmap.go)
+	if ix, ok := s.Lhs[0].(*ast.IndexExpr); ok && len(s.Lhs) == 1 {
+		if id, ok := ix.X.(*ast.Ident); ok && env.vars[id.Name] == mIMap {
+			lines, err := m.intMapStore(env, s, id.Name, ix.Index)
+			return lines, env2, err
+		}
+	}
 	// targets: plain identifiers (or _)
 	var names []string
 	for _, l := range s.Lhs {
@@ -1128,9 +1157,32 @@ func (m *mg) rangeLoop(env *mgEnv, s *ast.RangeStmt, label string, ctx *mgCtx, n
 	if asg["?"] {
 		return "", fmt.Errorf("range loop: unsupported assignment target")
 	}
-	var loopVar *ast.Ident
+	var loopVar, idxVar *ast.Ident
 	var list, elTy string
+	byValue := func() error {
+		// the elements are read while the loop runs: the body must not write to the slice ranged over
+		var err error
+		ast.Inspect(s.X, func(n ast.Node) bool {
+			if id, ok := n.(*ast.Ident); ok && asg[id.Name] {
+				err = fmt.Errorf("the loop body assigns %s, which is ranged over by value", id.Name)
+			}
+			return true
+		})
+		return err
+	}
 	switch {
+	case !isBlank(s.Key) && !isBlank(s.Value):
+		// for i, x := range s: range_loop over go_enum s = the pairs (i, s[i]) (matchmap.go)
+		k, ok1 := s.Key.(*ast.Ident)
+		v, ok2 := s.Value.(*ast.Ident)
+		if !ok1 || !ok2 || k.Name == v.Name {
+			return "", fmt.Errorf("unsupported range loop variables")
+		}
+		idxVar, loopVar, list, elTy = k, v, "(go_enum "+x.code+")", el
+		m.used[mgDocEnum] = true
+		if err := byValue(); err != nil {
+			return "", err
+		}
 	case !isBlank(s.Key) && isBlank(s.Value):
 		loopVar, list, elTy = s.Key.(*ast.Ident), "(go_indices "+x.code+")", mInt
 		m.used["for i := range s  ->  range_loop over go_indices s (MatchSupport.v): 0 .. len(s)-1, the length read once"] = true
@@ -1140,14 +1192,7 @@ func (m *mg) rangeLoop(env *mgEnv, s *ast.RangeStmt, label string, ctx *mgCtx, n
 			return "", fmt.Errorf("unsupported range loop variable")
 		}
 		loopVar, list, elTy = id, x.code, el
-		// the elements are read while the loop runs: the body must not write to the slice ranged over
-		ast.Inspect(s.X, func(n ast.Node) bool {
-			if id, ok := n.(*ast.Ident); ok && asg[id.Name] {
-				err = fmt.Errorf("the loop body assigns %s, which is ranged over by value", id.Name)
-			}
-			return true
-		})
-		if err != nil {
+		if err := byValue(); err != nil {
 			return "", err
 		}
 	default:
@@ -1166,6 +1211,17 @@ func (m *mg) rangeLoop(env *mgEnv, s *ast.RangeStmt, label string, ctx *mgCtx, n
 	}
 	bodyEnv := env.clone()
 	bodyEnv.declare(loopVar.Name, elTy)
+	varPat := fmt.Sprintf("(v_%s : %s)", loopVar.Name, mgCoq[elTy])
+	if idxVar != nil {
+		if _, exists := env.vars[idxVar.Name]; exists {
+			return "", fmt.Errorf("the loop variable %s shadows a variable", idxVar.Name)
+		}
+		if asg[idxVar.Name] {
+			return "", fmt.Errorf("the loop variable %s is assigned", idxVar.Name)
+		}
+		bodyEnv.declare(idxVar.Name, mInt)
+		varPat = fmt.Sprintf("'((v_%s, v_%s) : (Z * %s)%%type)", idxVar.Name, loopVar.Name, mgCoq[elTy])
+	}
 	inner := &mgCtx{frames: append(append([]mgFrame{}, ctx.frames...), mgFrame{label: label, tuple: tuple}),
 		bodyTy: "(rctl " + stateTy + " " + ctx.bodyTy + ")"}
 	body, err := m.block(bodyEnv, s.Body.List, inner, func(*mgEnv) (string, error) { return "Ok (Cont " + tuple + ")", nil })
@@ -1181,8 +1237,8 @@ func (m *mg) rangeLoop(env *mgEnv, s *ast.RangeStmt, label string, ctx *mgCtx, n
 	if label != "" {
 		lab = "(* " + label + ": *) "
 	}
-	binds = append(binds, fmt.Sprintf("do %s <- %srange_loop (R := %s) (fun (v_%s : %s) %s =>\n    %s) %s %s;",
-		out, lab, ctx.bodyTy, loopVar.Name, mgCoq[elTy], funPat, body, list, tuple))
+	binds = append(binds, fmt.Sprintf("do %s <- %srange_loop (R := %s) (fun %s %s =>\n    %s) %s %s;",
+		out, lab, ctx.bodyTy, varPat, funPat, body, list, tuple))
 	return sgJoin(binds, fmt.Sprintf("match %s with\n  | Ret %s => Ok %s\n  | Next %s => %s\n  end", out, r, r, pattern, rest)), nil
 }
 
@@ -1217,6 +1273,7 @@ func genMatch(repo string) (string, error) {
 	if fd.Type.TypeParams != nil {
 		return "", fmt.Errorf("%s: generic functions are not supported", name)
 	}
+	m.lenVars = mgLenVars(fd)
 	// variables compared with nil
 	ast.Inspect(fd.Body, func(n ast.Node) bool {
 		if b, ok := n.(*ast.BinaryExpr); ok && (b.Op == token.EQL || b.Op == token.NEQ) {
